@@ -74,7 +74,7 @@ def _gen(job):
 
 
 def _box(tier):
-    P, B, N = (6, 4, 24) if tier == "quick" else (8, 5, 40)
+    P, B, N = (6, 4, 24) if tier == "quick" else (12, 6, 72)
     for p in range(1, P + 1):
         for b in range(0, B + 1):
             for stg in ("RAM", "DISK"):
@@ -116,7 +116,7 @@ def run(prop, args):
     res = R.pmap(_case, box)
     count = 120 if tier == "quick" else 2000
     res += [x for part in R.pmap(_gen, [(tier, args.seed, k, count) for k in range(16)], chunksize=1) for x in part]
-    rep.exhaustive = [{"box": "period<=%d, binomial_snapshots<=%d, both storages, both trajectories, n<=%d, passes 1..3" % ((6, 4, 24) if tier == "quick" else (8, 5, 40)),
+    rep.exhaustive = [{"box": "period<=%d, binomial_snapshots<=%d, both storages, both trajectories, n<=%d, passes 1..3" % ((6, 4, 24) if tier == "quick" else (12, 6, 72)),
                        "cases": len(box), "exhaustive": True}]
     blocks = 0
     for out in res:
